@@ -513,9 +513,10 @@ def compare(scn, exp, got, hz) -> Optional[str]:
         subs = got["subs"]
         if len(subs) != (2 if got.get("rec2") is not None or got.get("second") else 1):
             return f"subscriptions:{len(subs)}"
-        for nth, sub in enumerate(subs):
-            if clk.tick(sub[0] - (got["off2"] if nth else 0)) != exp["subAt"]:
-                return f"subscribed_at:{clk.tick(sub[0])}!={exp['subAt']}"
+        # source subscriptions are logged in the order they were made: the first subscriber's comes first
+        nth = 1 if got.get("second") else 0
+        if nth < len(subs) and clk.tick(subs[nth][0] - (got["off2"] if nth else 0)) != exp["subAt"]:
+            return f"subscribed_at:{clk.tick(subs[nth][0])}!={exp['subAt']}"
     if op in HOT_OPS and exp["subAt"] < 0 and got["subs"]:
         return "subscribed although the subscription delay never elapsed"
     return None
@@ -577,8 +578,27 @@ def witness(scn, allowed, got) -> Dict[str, Any]:
     return w
 
 
-def judge(scn, allowed, cfg):
+def sibling_for(scn, cfg, sibs):
+    """Absolute-time forms: a subscriber that subscribes off2 ticks later sees the SAME absolute target from its own
+    subscription instant, i.e. the model's scenario with the target moved off2 ticks closer (a target in its past is the
+    same as a target at its subscription instant). Returns (scenario, allowed set) of that sibling scenario."""
+    d2 = scn["par"]["d"] - cfg.get("off2", 0)
+    if d2 not in sibs:
+        d2 = 0 if d2 < 0 and 0 in sibs else None
+    if d2 is None:
+        return None
+    return dict(scn, par=dict(scn["par"], d=d2)), sibs[d2]
+
+
+def judge(scn, allowed, cfg, sibs=None):
     """None, or a failure record"""
+    scn2, allowed2 = scn, allowed
+    if cfg.get("twice") and cfg.get("off2") and scn["op"] in ABS_OPS:
+        sibs = {int(k): v for k, v in (sibs or {}).items()}
+        sib = sibling_for(scn, cfg, sibs)
+        if sib is None:
+            return None, None          # the sibling scenario is outside the exported bounds: nothing to judge against
+        scn2, allowed2 = sib
     got = run_scenario(scn, cfg)
     if isinstance(got["escaped"], Hang):
         # a stall of the (shared, loaded) machine must not be mistaken for a hang: run it again with more patience
@@ -587,11 +607,12 @@ def judge(scn, allowed, cfg):
     if got["rec2"] is not None:
         # judge the second subscriber first; the first one below
         got2 = dict(got, rec=got["rec2"], rec2=None, second=True)
-        if not any(compare(scn, exp, got2, cfg["hz"]) is None for exp in allowed):
-            r = compare(scn, allowed[0], got2, cfg["hz"])
+        if not any(compare(scn2, exp, got2, cfg["hz"]) is None for exp in allowed2):
+            r = compare(scn2, allowed2[0], got2, cfg["hz"])
             rec = {"engine": "optime", "op": scn["op"], "scn": scn, "cfg": cfg, "expected": allowed, "observed": describe(got2),
                    "reason": "second_subscriber:" + r, "reason_kind": "second_subscriber", "clock": cfg.get("clock", "test"),
-                   "mode": cfg.get("mode")}
+                   "mode": cfg.get("mode"), "scn_second": scn2, "expected_second": allowed2,
+                   "sibs": {str(scn2["par"]["d"]): allowed2} if scn2 is not scn else None}
             return rec, None
     reasons, drifts, matched = [], [], False
     for exp in allowed:
@@ -643,11 +664,20 @@ def variants(scn, hz, tier, seed=0, clocks=("test", "hist")) -> List[Dict[str, A
     if tier == "thorough" or h % 4 == 0:
         g = h // 4
         cold = [m_ for m_ in modes if m_.startswith("cold")]
-        shifted = bool(cold) and op not in ABS_OPS and op != "timestamp" and g % 3 != 0       # the later subscriber needs a cold source and relative times
+        shifted = bool(cold) and op not in ABS_OPS and op != "timestamp" and g % 3 != 0       # the later subscriber needs a cold source
         out.append({"hz": hz, "mode": cold[g % len(cold)] if shifted else modes[g % len(modes)], "clock": ("test", "hist")[g % 2],
                     "S": (1, 7)[g % 2], "argform": "num", "schedarg": False, "subsched": True, "profile": "plain", "salt": g % 6,
                     "twice": True, "off2": (1, 2, 3)[g % 3] if shifted else 0, "auxmode": "cold" if shifted else ("cold", "hot")[g % 2],
                     "specmode": "cold", "fbmode": "cold"})
+    # absolute-time forms: ALWAYS a later second subscriber (cold source), on both clocks. It is judged against the model's
+    # scenario for ITS subscription instant (same absolute target, off2 ticks closer) - see sibling_for
+    if op in ABS_OPS:
+        cold = [m_ for m_ in modes if m_.startswith("cold")]
+        for n_, clock in enumerate(clocks if cold else ()):
+            g = h + 5 * n_
+            out.append({"hz": hz, "mode": cold[g % len(cold)], "clock": clock, "S": (1, 7)[g % 2], "argform": "num", "schedarg": g % 3 == 0,
+                        "subsched": True, "profile": ("plain", "falsy")[g % 2], "salt": g % 6, "twice": True, "off2": (1, 2, 3)[(g // 2) % 3],
+                        "auxmode": "cold", "specmode": "cold", "fbmode": "cold"})
     # scheduler given to the operator only (subscribe() without one), where the operator takes a scheduler
     if op not in NOSCHED_OPS and op not in FB_OPS and h % 3 == 0:
         out.append({"hz": hz, "mode": modes[(h // 3) % len(modes)], "clock": "test", "S": 1, "argform": "num", "schedarg": True,
@@ -656,13 +686,14 @@ def variants(scn, hz, tier, seed=0, clocks=("test", "hist")) -> List[Dict[str, A
 
 
 def _job(args):
-    scn, allowed, hz, tier, seed, clocks = args
+    scn, allowed, hz, tier, seed, clocks = args[:6]
+    sibs = args[6] if len(args) > 6 else None
     fails, drifts, nruns = [], [], 0
     for cfg in variants(scn, hz, tier, seed, clocks):
         if HANGS.get(scn["op"], 0) >= 2:
             break        # this operator hangs: reported already, do not spend the budget on it
         nruns += 1
-        f, d = judge(scn, allowed, cfg)
+        f, d = judge(scn, allowed, cfg, sibs)
         if f:
             fails.append(f)
         if d:
@@ -743,9 +774,20 @@ def simulate_and_replay(ck, ops_, consts, num, tier, clocks=("test", "hist"), de
     return len(gs)
 
 
+def _family_key(scn) -> str:
+    import json
+    return json.dumps({k: (v if k != "par" else {kk: vv for kk, vv in v.items() if kk != "d"}) for k, v in scn.items()}, sort_keys=True)
+
+
 def replay_groups(ck, groups, hz, tier, clocks=("test", "hist"), procs=6):
     from harness import core
-    jobs = [(scn, allowed, hz, tier, ck.seed, clocks) for scn, allowed in groups]
+    # absolute-time forms: index the exported scenarios that differ only in the target, for the later subscriber
+    fam: Dict[str, Dict[int, Any]] = {}
+    for scn, allowed in groups:
+        if scn["op"] in ABS_OPS:
+            fam.setdefault(_family_key(scn), {})[scn["par"]["d"]] = allowed
+    jobs = [(scn, allowed, hz, tier, ck.seed, clocks, fam.get(_family_key(scn)) if scn["op"] in ABS_OPS else None)
+            for scn, allowed in groups]
     total = 0
     ndrift = 0
     # a real run costs 0.2-0.4 ms: a process pool only pays off for large batches
@@ -774,6 +816,6 @@ def nontrivial(scn, allowed) -> bool:
 
 def generic_replay(rec):
     import json
-    f, _ = judge(rec["scn"], rec["expected"], rec["cfg"])
+    f, _ = judge(rec["scn"], rec["expected"], rec["cfg"], rec.get("sibs"))
     print(json.dumps(f, default=str)[:3000] if f else "replay: observation allowed by the spec")
     return 1 if f else 0
